@@ -8,7 +8,7 @@ import ast
 import re
 
 from .. import regexlang as rx
-from ..astutil import call_attr, calls_in, guard_facts, unparse, walk_local
+from ..astutil import call_attr, calls_in, guard_facts, names_in, unparse, walk_local
 from ..report import Finding, Report
 from ..rx_extract import class_regex
 from ..srcindex import AnalysisError, Index
@@ -252,6 +252,98 @@ def check_float_forms(idx: Index, rep: Report) -> None:
             r.fail(inst, Finding("C06.R3", f.fq, "hex-float-not-bitcast", f"{what}: print_float emits NaN, ±Inf (and values whose decimal form has no '.') as `0x<bit pattern>`, but this reader has no bit-cast branch for an INTEGER_LIT with 0x prefix: the text is rejected or read as the integer value", f.loc))
 
 
+# round-trip decimal digits per IEEE binary format: ceil(1 + p*log10(2)) with p = significand bits
+# (IEEE 754-2019 §5.12.2: 5, 9, 17, 36 for binary16/32/64/128; bfloat16 p=8 -> 4; x87 80-bit p=64 -> 21)
+ROUNDTRIP_DIGITS = {"Float16Type": 5, "BFloat16Type": 4, "Float32Type": 9, "Float64Type": 17, "Float80Type": 21, "Float128Type": 36}
+
+
+def check_float_digits(idx: Index, rep: Report) -> None:
+    """A decimal form that is printed without being re-packed and compared must carry enough significant digits
+    to identify every value of the element type."""
+    r = rep.rule("C06.R3b", "a decimal float form printed without a run-time re-pack check has at least the round-trip number of significant digits of its element type (f32: 9, f64: 17)", floor=2)
+    pf = idx.func(PRINTER, "Printer.print_float")
+    fn = pf.node
+    value = fn.args.args[1].arg
+    tparam = fn.args.args[2].arg
+    n = 0
+    for js in [x for x in walk_local(fn) if isinstance(x, ast.JoinedStr)]:
+        fvs = [v for v in js.values if isinstance(v, ast.FormattedValue) and isinstance(v.value, ast.Name) and v.value.id == value]
+        for fv in fvs:
+            spec = unparse(fv.format_spec)[2:-1] if fv.format_spec is not None else ""
+            if fv.conversion == ord("r") or (spec == "" and fv.conversion in (-1, ord("s"))):
+                # repr / str of a Python float: shortest string that round-trips the double (exact for every narrower type)
+                n += 1
+                r.ok(f"{pf.fq}:repr", f"{pf.loc} repr(value): shortest round-trip form of the double")
+                continue
+            m = re.fullmatch(r"\.(\d+)([eg])", spec)
+            if m is None:
+                raise AnalysisError(f"{pf.fq}: float format spec `{spec}` not recognised")
+            digits = int(m.group(1)) + (1 if m.group(2) == "e" else 0)
+            # where does the formatted text go?  find the statement and the name it is bound to
+            pm = {id(c): p for p in ast.walk(fn) for c in ast.iter_child_nodes(p)}
+            st = js
+            while not isinstance(st, ast.stmt):
+                st = pm[id(st)]
+            facts = guard_facts(fn, st)
+            types = [unparse(t.args[1]) for t, pol in facts if pol and isinstance(t, ast.Call) and call_attr(t) == "isinstance" and len(t.args) == 2 and unparse(t.args[0]) == tparam]
+            # is every print of this text guarded by the re-pack equality?
+            verified = False
+            if isinstance(st, ast.Assign) and isinstance(st.targets[0], ast.Name):
+                nm = st.targets[0].id
+                repack = [a for a in walk_local(fn) if isinstance(a, ast.Assign) and isinstance(a.targets[0], ast.Name) and f"{tparam}.unpack({tparam}.pack(" in unparse(a.value) and nm in names_in(a.value)]
+                if repack:
+                    chk = repack[0].targets[0].id
+                    prints = [c for c in calls_in(fn) if call_attr(c) == "print_string" and c.args and nm in names_in(c.args[0])]
+                    def eq_guard(c):
+                        return any(pol and isinstance(t, ast.Compare) and isinstance(t.ops[0], ast.Eq) and {unparse(t.left), unparse(t.comparators[0])} == {chk, value} for t, pol in guard_facts(fn, c))
+                    # prints of later re-bindings of the same name are judged with their own format
+                    own = [c for c in prints if c.lineno < min([a.lineno for a in walk_local(fn) if isinstance(a, ast.Assign) and isinstance(a.targets[0], ast.Name) and a.targets[0].id == nm and a.lineno > st.lineno and nm not in names_in(a.value)] + [10**9])]
+                    verified = bool(own) and all(eq_guard(c) for c in own)
+            n += 1
+            inst = f"{pf.fq}:.{m.group(1)}{m.group(2)}"
+            if verified:
+                r.ok(inst, f"{pf.module.relpath}:{js.lineno} '{spec}' printed only after re-packing it reproduces the value")
+                continue
+            if not types:
+                r.fail(inst, Finding("C06.R3b", pf.fq, f"unverified-digits:{spec}", f"`{unparse(js)}` is printed without a re-pack check and without a test of the element type: {digits} significant digits do not identify every float", f"{pf.module.relpath}:{js.lineno}"))
+                continue
+            for t in types:
+                need = ROUNDTRIP_DIGITS.get(t.split(".")[-1])
+                if need is None:
+                    raise AnalysisError(f"{pf.fq}: float type `{t}` has no entry in the round-trip digit table")
+                if digits >= need:
+                    r.ok(inst, f"{pf.module.relpath}:{js.lineno} {t}: {digits} significant digits >= {need}")
+                else:
+                    r.fail(inst, Finding("C06.R3b", pf.fq, f"too-few-digits:{t.split('.')[-1]}", f"`{unparse(js)}` prints a {t} with {digits} significant digits without a re-pack check; {need} are needed to identify every value (e.g. 0.1 + 0.2, or the largest finite value, come back as a different bit pattern)", f"{pf.module.relpath}:{js.lineno}"))
+    if n == 0:
+        raise AnalysisError(f"{pf.fq}: no float format found")
+
+
+def check_function_type_parens(idx: Index, rep: Report) -> None:
+    """`(a) -> (b) -> c` is read as `(a) -> ((b) -> c)`... only when the inner function type is parenthesised by the writer:
+    every printer of a function type may drop the result parentheses only for a single result that is not itself a function type."""
+    r = rep.rule("C06.R11", "every function-type printer keeps the parentheses around a single result that is itself a function type (sibling agreement of the two printers with the type grammar)", floor=2)
+    for mod, q in ((PRINTER, "Printer.print_function_type"), (BUILTIN, "FunctionType.print_builtin")):
+        f = idx.func(mod, q)
+        fn = f.node
+        arrow = [c for c in calls_in(fn) if call_attr(c) == "print_string" and c.args and isinstance(c.args[0], ast.Constant) and "->" in str(c.args[0].value)]
+        if not arrow:
+            raise AnalysisError(f"{f.fq}: the ` -> ` separator is no longer printed here")
+        after = arrow[0].lineno
+        withs = [w for w in walk_local(fn) if isinstance(w, ast.With) and any("in_parens" in unparse(i.context_expr) for i in w.items)]
+        bare = [c for c in calls_in(fn) if call_attr(c) == "print_attribute" and c.lineno > after and len(c.args) == 1 and not any(any(x is c for x in ast.walk(w)) for w in withs)]
+        if not bare:
+            r.ok(f.fq, f"{f.loc} results are always parenthesised")
+            continue
+        for c in bare:
+            arg = unparse(c.args[0])
+            ok = any((not pol) and isinstance(t, ast.Call) and call_attr(t) == "isinstance" and len(t.args) == 2 and unparse(t.args[0]) == arg and "FunctionType" in unparse(t.args[1]) for t, pol in guard_facts(fn, c))
+            if ok:
+                r.ok(f.fq, f"{f.module.relpath}:{c.lineno} bare result `{arg}` only when it is not a FunctionType")
+            else:
+                r.fail(f.fq, Finding("C06.R11", f.fq, "bare-function-result", f"`{unparse(c)}` prints a single result without parentheses and without excluding a FunctionType result: `() -> (() -> i32)` is printed as `() -> () -> i32`, which is read back as a different type (or rejected inside a list)", f"{f.module.relpath}:{c.lineno}"))
+
+
 def check_bool_spelling(idx: Index, rep: Report) -> None:
     r = rep.rule("C06.R4", "`true`/`false` is printed only for i1 and every integer reader reached for i1 accepts booleans", floor=3)
     pi = idx.func(PRINTER, "Printer.print_int")
@@ -457,6 +549,8 @@ def check(idx: Index, rep: Report, tier: str) -> str:
     rep.run(check_misc, idx, rep)
     rep.run(check_string_literal, idx, rep, forms)
     rep.run(check_float_forms, idx, rep)
+    rep.run(check_float_digits, idx, rep)
+    rep.run(check_function_type_parens, idx, rep)
     rep.run(check_bool_spelling, idx, rep)
     rep.run(check_packed, idx, rep)
     rep.run(check_locations, idx, rep)
